@@ -55,6 +55,7 @@ func genC12(driver string, col *ev.Collector) func(*rapid.T) c12Case {
 			suppressDirectVsRange(&c.Scenario)
 		}
 		honourDepMgmtClass(col, "c12", &c.Manifest)
+		honourDepMgmtRange(col, "c12", &c.Manifest)
 		o := remOpts{DevDeps: pct(t, "dev_deps") < 65, MaxDepth: -1}
 		if pct(t, "max_depth?") < 40 {
 			o.MaxDepth = universe.IntIn(t, 1, 3, "max_depth")
@@ -275,7 +276,7 @@ func propC12(c c12Case) (ev.Outcome, error) {
 
 func runC12(t *testing.T, driver string) {
 	col := ev.Get("C12")
-	ev.Check(t, col, ev.Scale(300, 2000), genC12(driver, col), propC12)
+	ev.Check(t, col, ev.Scale(500, 2000), genC12(driver, col), propC12)
 }
 
 func TestC12_npm_relax(t *testing.T)      { runC12(t, drvNpmRelax) }
